@@ -143,6 +143,21 @@ def run(ctx):
     n = (300 if ctx.quick else 1500) * (3 if ctx.search else 1)
     for _ in range(n):
         a, o, t = valid_configurator(rng, ctx.quick, top_items=True, multi_default_p=0.15, dup_top_p=0.12)
+        numeric = rng.random() < 0.15
+        pool = ["9", "10", "100", "1001", "950", "1001-B", "2a", "02", "7", "12b", "0950", "99"]
+        rng.shuffle(pool)
+        if numeric:
+            # rule ids that are numbers or start like numbers (article numbers): ids are texts, ordered as texts
+            seen_ids = {}
+            for x in a["args"]:
+                if isinstance(x, dict) and x.get("c") not in ("str", "var") and "id" in x and pool:
+                    x["id"] = seen_ids.setdefault(x["id"], pool.pop())
+            try:
+                o = build(a); t = snap(o)
+                if not well_formed(t) or o.errors(): continue
+            except Exception:
+                continue
+            ctx.tags["number-like-rule-ids"] += 1
         rules = []
         # (rules are validated against the configurator without its repeated top-level entries, if it has any)
         base_args, seen_ = [], []
@@ -159,6 +174,13 @@ def run(ctx):
                     ok = "id" in r and any(c["id"] == r["id"] for c in t["kids"]) or r.get("$nested_id") or (well_formed(tt) and not trial.errors() and free01(tt))
                 except Exception:
                     ok = False
+                if ok and numeric and pool and str(r.get("id", "")).startswith("NEW"):
+                    r = dict(r); r["id"] = pool.pop()
+                    try:
+                        trial = build({"c": "Stingy", "args": base_args + rules + [r], "id": "x"})
+                        ok = well_formed(snap(trial)) and not trial.errors() and free01(snap(trial))
+                    except Exception:
+                        ok = False
                 if ok:
                     rules.append(r); break
         names = sorted(leaves_of(t))
